@@ -403,4 +403,181 @@ theorem WriteResult_refines (ext : Ext) (hio : NoIOErr ext) (fs : FS) (hstat : S
   cases ha : o.AppendMode <;> cases hh : needHeader fs (reqOf ext query o final) <;> cases final <;>
     simp [reqOf, ha, hh, ofFOp, List.map_append]
 
+/-! ### whatever fails, nothing panics -/
+
+/-- the function returned (a value, possibly carrying a Go `error`): it did not panic -/
+def Returned {α : Type} (o : Outcome α) : Prop := ∃ v, o = Outcome.ok v
+
+theorem returned_ite {α : Type} {c : Prop} [Decidable c] {a b : Outcome α} (ha : c → Returned a) (hb : ¬c → Returned b) :
+    Returned (if c then a else b) := ite_all Returned ha hb
+
+/-- a step of a loop whose early returns are all normal returns -/
+def StepReturned {α σ : Type} : LoopStep (Outcome α) σ → Prop
+  | .ret r => Returned r
+  | _ => True
+
+theorem stepReturned_ite {α σ : Type} {c : Prop} [Decidable c] {a b : LoopStep (Outcome α) σ}
+    (ha : c → StepReturned a) (hb : ¬c → StepReturned b) : StepReturned (if c then a else b) := ite_all StepReturned ha hb
+
+theorem goRange_returned {α β σ : Type} (l : List β) (body : σ → β → LoopStep (Outcome α) σ) (after : σ → Outcome α)
+    (hbody : ∀ s x, StepReturned (body s x)) (hafter : ∀ s, Returned (after s)) (s0 : σ) :
+    Returned (goRange l s0 body after) :=
+  goRange_all Returned l body after (fun s x r h => by have := hbody s x; rw [h] at this; exact this) hafter s0
+
+/-- **`resultWriteUnformatted` never panics, whichever file operation fails**: given an outfile, every path — a failing
+    header write, a failing value, delimiter or newline write, a failing rename followed by the removal of the temporary
+    file — returns -/
+theorem rwu_returns (ext : Ext) (g : GroupSet) (query : GQuery) (o : GOutfile) (ho : query.Outfile = some o)
+    (rows : List GRow) (fd : GoString) (writeHeader final : Bool) :
+    Returned (GroupSet.resultWriteUnformatted ext g query rows fd writeHeader final) := by
+  unfold GroupSet.resultWriteUnformatted
+  simp only [ho, Option.isSome_some, if_true]
+  have hrows : ∀ (g : GroupSet), Returned
+      (goRange (goEnum rows) g
+        (fun g (x : Int × GRow) =>
+          if (x.1 == query.Limit) then
+            (LoopStep.brk g : LoopStep (Outcome (GroupSet × GoErr)) GroupSet)
+          else
+            goRange (goEnum x.2.values) g
+              (fun g (y : Int × GoString) =>
+                let (_h3, _e3) := goEffect ext g.ops (GoFOp.write fd y.2)
+                let g := { g with ops := _h3 }
+                let _t4 := (GoLen.len y.2)
+                let _t5 := _e3
+                let _u6 := _t4
+                let err := _t5
+                if (err != none) then
+                  LoopStep.ret (LoopStep.ret (Outcome.ok (g, err)))
+                else
+                  if (y.1 == (GoLen.len query.Select - 1)) then
+                    LoopStep.next g
+                  else
+                    let (_h7, _e7) := goEffect ext g.ops (GoFOp.write fd ([44] : GoString))
+                    let g := { g with ops := _h7 }
+                    let _t8 := (GoLen.len ([44] : GoString))
+                    let _t9 := _e7
+                    let _u10 := _t8
+                    let err := _t9
+                    if (err != none) then
+                      LoopStep.ret (LoopStep.ret (Outcome.ok (g, err)))
+                    else
+                      LoopStep.next g)
+              (fun g =>
+                let (_h11, _e11) := goEffect ext g.ops (GoFOp.write fd ([10] : GoString))
+                let g := { g with ops := _h11 }
+                let _t12 := (GoLen.len ([10] : GoString))
+                let _t13 := _e11
+                let _u14 := _t12
+                let err := _t13
+                if (err != none) then
+                  LoopStep.ret (Outcome.ok (g, err))
+                else
+                  LoopStep.next g))
+        (fun g =>
+          if ((!(goDeref (some o)).AppendMode) && final) then
+            let tmpOutfile := ((goDeref (some o)).FilePath ++ ([46, 116, 109, 112] : GoString))
+            let (_h15, _e15) := goEffect ext g.ops (GoFOp.rename tmpOutfile (goDeref (some o)).FilePath)
+            let g := { g with ops := _h15 }
+            let _t16 := _e15
+            let err := _t16
+            if (err != none) then
+              let (_h17, _e17) := goEffect ext g.ops (GoFOp.remove tmpOutfile)
+              let g := { g with ops := _h17 }
+              (Outcome.ok (g, err))
+            else
+              (Outcome.ok (g, none))
+          else
+            (Outcome.ok (g, none)))) := by
+    intro g
+    apply goRange_returned
+    · intro g x
+      apply stepReturned_ite
+      · intro _; trivial
+      · intro _
+        -- the inner loop yields a step of the outer loop
+        apply goRange_all (P := StepReturned)
+        · intro g y r hr
+          dsimp only at hr
+          split at hr <;> (try split at hr) <;> (try split at hr) <;> first
+            | (cases hr; exact ⟨_, rfl⟩)
+            | (cases hr)
+        · intro g
+          dsimp only
+          split <;> first | exact ⟨_, rfl⟩ | trivial
+    · intro g
+      dsimp only
+      split <;> (try split) <;> exact ⟨_, rfl⟩
+  cases writeHeader
+  · simp only [Bool.false_eq_true, if_false]
+    exact hrows g
+  · simp only [if_true]
+    split
+    · exact ⟨_, rfl⟩
+    · exact hrows _
+
+theorem writeQueryFile_returns (ext : Ext) (g : GroupSet) (query : GQuery) (o : GOutfile) (ho : query.Outfile = some o) :
+    Returned (GroupSet.writeQueryFile ext g query) := by
+  unfold GroupSet.writeQueryFile
+  simp only [ho, Option.isSome_some, if_true]
+  split <;> (try split) <;> exact ⟨_, rfl⟩
+
+theorem getOutfileFD_returns (ext : Ext) (g : GroupSet) (query : GQuery) (o : GOutfile) (ho : query.Outfile = some o) :
+    Returned (GroupSet.getOutfileFD ext g query) := by
+  unfold GroupSet.getOutfileFD
+  simp only [ho, Option.isSome_some, if_true]
+  split <;> exact ⟨_, rfl⟩
+
+/-- **the translated `WriteResult` never panics, whichever file operations fail**: with an outfile in the query, for every
+    behaviour of `ext.ioErr`, `os.Stat` and every result, the function returns (with or without a Go error) — no nil
+    dereference on any error path -/
+theorem WriteResult_returns (ext : Ext) (g : GroupSet) (query : GQuery) (o : GOutfile) (ho : query.Outfile = some o)
+    (final : Bool) : Returned (GroupSet.WriteResult ext g query final) := by
+  unfold GroupSet.WriteResult Query.HasOutfile
+  have hne : (query.Outfile != none) = true := by rw [ho]; rfl
+  simp only [hne, Bool.not_true, Bool.false_eq_true, if_false]
+  obtain ⟨⟨g1, e1⟩, h1⟩ := writeQueryFile_returns ext g query o ho
+  rw [h1]
+  simp only []
+  apply returned_ite
+  · intro _; exact ⟨_, rfl⟩
+  · intro _
+    simp only [none_bne, Bool.false_eq_true, if_false]
+    have hfd : ∀ (g : GroupSet) (wh : Bool), Returned
+        (match GroupSet.getOutfileFD ext g query with
+          | Outcome.ok _o11 =>
+            let (_r12, _t13, _t14) := _o11
+            let g := _r12
+            let fd := _t13
+            let err := _t14
+            if (err != none) then
+              (Outcome.ok (g, err))
+            else
+              match GroupSet.resultWriteUnformatted ext g query (List.map (fun v => ({ values := v } : result)) ext.rowValues) fd wh final with
+              | Outcome.ok _o16 =>
+                let (_r17, _t18) := _o16
+                let g := _r17
+                let ret_15 := _t18
+                (Outcome.ok (g, ret_15))
+              | _ =>
+                (Outcome.panic "panic in GroupSet.resultWriteUnformatted")
+          | _ =>
+            (Outcome.panic "panic in GroupSet.getOutfileFD")) := by
+      intro g wh
+      obtain ⟨⟨g2, fd, e2⟩, h2⟩ := getOutfileFD_returns ext g query o ho
+      rw [h2]
+      simp only []
+      apply returned_ite
+      · intro _; exact ⟨_, rfl⟩
+      · intro _
+        obtain ⟨⟨g3, e3⟩, h3⟩ := rwu_returns ext g2 query o ho (List.map (fun v => ({ values := v } : result)) ext.rowValues) fd wh final
+        rw [h3]
+        exact ⟨_, rfl⟩
+    simp only [ho, Option.isSome_some, if_true]
+    apply returned_ite
+    · intro _
+      apply returned_ite
+      · intro _; exact hfd g1 false
+      · intro _; exact hfd g1 true
+    · intro _; exact hfd g1 true
+
 end Dtail.GenOutfile
